@@ -608,6 +608,13 @@ func releasable(label string, parked []string) bool {
 			}
 		}
 	}
+	if strings.HasSuffix(label, "syncer.storeLock") {
+		for _, q := range parked {
+			if q == "state" {
+				return false // a syncer loop parked in the state write holds storeLock
+			}
+		}
+	}
 	return true
 }
 
